@@ -187,7 +187,10 @@ ADDENDA = {
     "C09": " At the level of the evaluator model (C09Eval): NoEff (flag set, no effectful built-in value anywhere in frames or heap) is preserved by every "
            "evaluator function and by whole sessions (eval_preserves_noEff), no evaluator step writes the flag (secure_flag_constant), and secure-mode "
            "evaluation is independent of what the effectful built-ins would do (eval_indep_effectful: non-interference form of unreachability).",
-    "C10": " The `for` statement restores a variable hidden by its loop variable (for_cleanup_on_error, hiddenVars_spec; defect D24 repaired).",
+    "C10": " Sessions keep their definitions (C10Sess): bindings_monotone (every binding of a frame survives evaluation, whatever the outcome), "
+           "for_restores_value, session_bindings_persist, definition_survives_failed_call, prefix_effects_survive_failure, later_statements_do_not_run, "
+           "failed_call_same_error_again, failed_remainder_never_ran, instances_independent; the `for` statement restores a variable hidden by its loop "
+           "variable (for_cleanup_on_error, hiddenVars_spec; defect D24 repaired).",
     "C11": " `require` binds exactly the requested names (C11Bind): require_plain_binds_exactly, module_object_members, require_import_binds_exactly, "
            "require_unqualified_binds_exactly, module_scope_isolated, require_failure_binds_nothing, shared_instance, on top of the evaluator-wide "
            "invariant frames_extend.",
